@@ -1100,10 +1100,13 @@ pub fn dense(shard: usize, f_raw: &mut dyn FnMut(&RawPos), f: Sink) {
         b[sq(0, 0)] = K;
         b[sq(0, 7)] = K | BLACK;
         for stm in 0..2u8 {
-            let r = RawPos { b, stm, cr: [false; 4], eps: None, hmc: 12, fmn: 34 };
-            f_raw(&r);
-            if let Ok(p) = r.validate() {
-                f(&p);
+            // two-digit counters, and five-digit ones (the longest records: up to 89 characters)
+            for (hmc, fmn) in [(12u32, 34u32), (65535, 65535)] {
+                let r = RawPos { b, stm, cr: [false; 4], eps: None, hmc, fmn };
+                f_raw(&r);
+                if let Ok(p) = r.validate() {
+                    f(&p);
+                }
             }
         }
     }
@@ -1684,4 +1687,149 @@ pub fn boxk(shard: usize, part: usize, f: Sink) {
             }
         }
     }
+}
+
+// ---------------------------------------------------------------------------------------------
+// PROMOROW, BACKRANK
+
+/// shard = side to move
+/// PROMOROW: every subset of own pawns on the seventh rank against every subset of enemy knights
+/// on the eighth (256 x 256), own king on its first rank, enemy king on its own third rank: up
+/// to fourteen capture-promotions (x 4 pieces) and eight push-promotions in one position.
+pub fn promorow(own: u8, part: usize, f: Sink) {
+    let opp = 1 - own;
+    let r7 = if own == 0 { 6 } else { 1 };
+    let r8 = if own == 0 { 7 } else { 0 };
+    let r1 = 7 - r8;
+    let r6 = if own == 0 { 5 } else { 2 };
+    for pm in 0..256u32 {
+        if pm as usize % 16 != part {
+            continue;
+        }
+        for nm in 0..256u32 {
+            let mut p = Pos::empty();
+            p.stm = own;
+            for fl in 0..8 {
+                if pm >> fl & 1 != 0 {
+                    p.b[sq(fl, r7)] = mk(own, P);
+                }
+                if nm >> fl & 1 != 0 {
+                    p.b[sq(fl, r8)] = mk(opp, N);
+                }
+            }
+            p.b[sq(0, r1)] = mk(own, K);
+            p.b[sq(7, r6)] = mk(opp, K);
+            emit_if_valid(&p, f);
+        }
+    }
+}
+
+/// BACKRANK as raw boards: side S with all eight, all but one (each file) or none of its pawns
+/// on their home rank; on S's back rank its king on every square, the enemy king on every other
+/// back-rank square or far away, and every assignment of {empty, R, Q} to the six remaining
+/// squares; both sides to move. Valid and invalid boards (a king in check behind a pawn wall).
+pub const BACKRANK_SHARDS: usize = 16;
+
+/// shard = side * 8 + own king file
+pub fn backrank(shard: usize, f_raw: &mut dyn FnMut(&RawPos)) {
+    let s = (shard / 8) as u8;
+    let only_ok = shard % 8;
+    let hr = if s == 0 { 0 } else { 7 };
+    let pr = if s == 0 { 1 } else { 6 };
+    let far = sq(4, 7 - hr);
+    let mut pawnsets: Vec<u32> = vec![0xff, 0];
+    for fl in 0..8 {
+        pawnsets.push(0xff & !(1 << fl));
+    }
+    for &ps in &pawnsets {
+        for ok in only_ok..only_ok + 1 {
+            for eko in 0..9 {
+                if eko == ok {
+                    continue;
+                }
+                let rest: Vec<i32> = (0..8usize).filter(|&x| x != ok && x != eko).map(|x| x as i32).collect();
+                for code in 0..3usize.pow(rest.len() as u32) {
+                    let mut b = [EMPTY; 64];
+                    for fl in 0..8 {
+                        if ps >> fl & 1 != 0 {
+                            b[sq(fl, pr)] = mk(s, P);
+                        }
+                    }
+                    b[sq(ok as i32, hr)] = mk(s, K);
+                    if eko < 8 {
+                        b[sq(eko as i32, hr)] = mk(1 - s, K);
+                    } else {
+                        b[far] = mk(1 - s, K);
+                    }
+                    let mut x = code;
+                    for &fl in &rest {
+                        match x % 3 {
+                            1 => b[sq(fl, hr)] = mk(s, R),
+                            2 => b[sq(fl, hr)] = mk(s, Q),
+                            _ => {}
+                        }
+                        x /= 3;
+                    }
+                    for stm in 0..2u8 {
+                        f_raw(&RawPos { b, stm, cr: [false; 4], eps: None, hmc: 0, fmn: 1 });
+                    }
+                }
+            }
+        }
+    }
+}
+
+// ---------------------------------------------------------------------------------------------
+// CAPRET: capture-and-return lines
+
+/// For square `x`: a black knight on x, a white rook next to it, kings far from both.
+/// The line: the rook takes on x, Black's king steps aside, the rook returns, the king
+/// returns, then both kings step aside and back twice more. After ply 4 the position equals the
+/// start except for the man on x; from then on it recurs. 64 lines, one per square.
+pub fn capture_return_line(x: usize) -> Option<(Pos, Vec<Mv>)> {
+    let (xf, xr) = (file_of(x), rank_of(x));
+    let on = |f: i32, r: i32| (0..8).contains(&f) && (0..8).contains(&r);
+    // the capturer is a rook next to x (king and rook against king is not a dead position)
+    let (yf, yr) = [(1, 0), (-1, 0), (0, 1), (0, -1)].iter().map(|(a, b)| (xf + a, xr + b)).find(|(f, r)| on(*f, *r))?;
+    let y = sq(yf, yr);
+    let dist = |a: usize, b: usize| (file_of(a) - file_of(b)).abs().max((rank_of(a) - rank_of(b)).abs());
+    // kings: the first pair of squares (from a fixed list) far from x, y and each other
+    let cands = [sq(7, 0), sq(0, 7), sq(0, 0), sq(7, 7), sq(4, 0), sq(4, 7), sq(7, 3), sq(0, 4)];
+    for &wk in &cands {
+        for &bk in &cands {
+            if wk == bk || dist(wk, bk) < 3 || dist(wk, x) < 3 || dist(bk, x) < 3 || dist(wk, y) < 3 || dist(bk, y) < 3 {
+                continue;
+            }
+            let mut p = Pos::empty();
+            p.b[x] = mk(1, N);
+            p.b[y] = R;
+            p.b[wk] = K;
+            p.b[bk] = mk(1, K);
+            if !is_valid_normal(&p) {
+                continue;
+            }
+            let step = |k: usize| if file_of(k) < 7 { k + 1 } else { k - 1 };
+            let (wk2, bk2) = (step(wk), step(bk));
+            let texts = [(y, x), (bk, bk2), (x, y), (bk2, bk), (wk, wk2), (bk, bk2), (wk2, wk), (bk2, bk), (wk, wk2), (bk, bk2), (wk2, wk), (bk2, bk)];
+            let mut q = p;
+            let mut line = Vec::new();
+            let mut ok = true;
+            for (f, t) in texts {
+                match q.legal().into_iter().find(|m| m.from as usize == f && m.to as usize == t) {
+                    Some(m) => {
+                        line.push(m);
+                        q = q.apply(m);
+                    }
+                    None => {
+                        ok = false;
+                        break;
+                    }
+                }
+            }
+            if ok {
+                return Some((p, line));
+            }
+        }
+    }
+    None
 }
